@@ -38,7 +38,7 @@ its reset to ON at the start of every pass and file) x the class of the message 
     A message without a position (INTERNAL: the reports of the end of a pass) that is found on both channels of a
     two-file run may be one message or two: both counts are admitted (union_counts).
     quick: 4 000 of the 41 k runs (1 000 per listing destination, seeded), 1 000 of the 16 k, 1 000 of the 3.6 k two-file
-    runs; thorough: 120 000 / 60 000 / 40 000 of the deeper configurations (DiagDest_MC4 / _All3 / _2f3).
+    runs; thorough: 120 000 of 178 k (DiagDest_MC4), 60 000 of 93 k (DiagDest_MC_All3), all 25.5 k two-file runs (DiagDest_MC_2f3).
 Not covered: -t (listing mask), PAGE (page length 0 / width), MACEXP, messages raised inside macro expansions or include
 files while unlisted, -l together with -L on one command line (the later wins), +l in ASCMD, I/O errors of the listing.
 Mutations tried on scratch copies (all compile; this phase alone, quick tier, 6 000 runs):
